@@ -194,8 +194,7 @@ package interpreter
 //@   ensures[C05.push] (and (= (len (. s stk)) (+ (old (len (. s stk))) 1)) (= (at (. s stk) (old (len (. s stk)))) so))
 // Assumption for the functional contracts below: debugger callbacks observe; they write no memory that existed before
 // the call (they are handed snapshots). Library implementations are checked against it.
-//@ ifaces ^interpreter\.Debugger\.
-//@   pure
+// (the contract of interpreter.Debugger's methods is at the end of this file, with the C19 precondition)
 // the functions attached to the library's own debugger (package debug) are the user's: same assumption
 //@ sig threadstatefn "func(state *interpreter.State)"
 //@   pure
@@ -423,3 +422,16 @@ package interpreter
 //@   loop 4 invariant (forall ((k Int)) (=> (and (<= 0 k) (< k (len (. ts ElseStack)))) (and (or (nil? (at (. ts ElseStack) k)) (fresh (at (. ts ElseStack) k))) (allocated (at (. ts ElseStack) k)))))
 //@   loop 4 invariant (forall ((k Int)) (=> (and (<= 0 k) (< k (len (. ts SavedFirstStack)))) (and (fresh (at (. ts SavedFirstStack) k)) (allocated (at (. ts SavedFirstStack) k)) (= (len (at (. ts SavedFirstStack) k)) (len (at (. t savedFirstStack) k))))))
 //@   loop 4 invariant (forall ((k Int)) (=> (and (<= 0 k) (<= k rangeindex)) (and (fresh (at (. ts Scripts) k)) (allocated (at (. ts Scripts) k)) (= (len (at (. ts Scripts) k)) (len (at (. t scripts) k))))))
+// every StateHandler in the module returns an isolated snapshot (proved of thread.State and nopStateHandler.State: the
+// postcondition of the interface method is an obligation of each implementation)
+//@ iface interpreter.StateHandler.State
+//@   pure
+//@   ensures[C19.handler_isolated] (spec.iso_state result A0)
+//@ func interpreter.(*nopStateHandler).State
+//@   fresh result
+// every debugger callback is handed a snapshot that was taken inside the calling hook (precondition of the interface
+// method: an obligation at each of the 14 call sites)
+//@ ifaces ^interpreter\.Debugger\.
+//@   pure
+//@   opt params state data
+//@   requires (spec.iso_state state CA0)
